@@ -343,6 +343,22 @@ func foldFlags(v ssa.Value, f uint64, bind map[*ssa.Parameter]uint64, depth int)
 				nb[p] = u
 			}
 		}
+		// a function of one small value (Type.DefaultFlags, Type.Valid): folded by the table-aware evaluator, however it
+		// is written (switch, comparisons, a package-level table)
+		if len(callee.Params) == 1 {
+			if u, bound := nb[callee.Params[0]]; bound {
+				if cv, _, okc := evalConstFunc(callee, constant.MakeUint64(u), 0); okc && cv != nil {
+					switch cv.Kind() {
+					case constant.Bool:
+						return b2u(constant.BoolVal(cv)), true, true
+					case constant.Int:
+						if r, exact := constant.Uint64Val(cv); exact {
+							return r, false, true
+						}
+					}
+				}
+			}
+		}
 		if len(rets) == 1 && len(rets[0].Results) == 1 {
 			return foldFlags(rets[0].Results[0], f, nb, depth+1)
 		}
